@@ -11,6 +11,7 @@ import json
 import os
 import re
 import vlib
+from props import vmlib
 from props.c15 import tlc_enumerate, tlc_simulate, TLC_XMX, HARNESS_JOBS
 
 BATCH = 150
@@ -232,7 +233,11 @@ def run(prop, tier, seed):
     expk = collections.Counter(o["exp"]["k"] for o in ops)
     nontrivial = len({(o["op"], p["a"], p["b"] if "cmp" in o or o["grp"].split(".")[-1] in ("add", "sub", "mul", "div", "pow") else "")
                       for p in pairs for o in p["ops"] if o["cat"].split("|")[1] not in ("exact", "predicted", "direct", "let")})
+    # instruction level: a sample of the programs is re-run with the VM hooks on; every executed instruction (operand values,
+    # result, error kind), every optimizer rewrite and every assembled instruction is validated by spec/vm/TraceVM.tla
+    vmcov = vmlib.trace_leg(rep, prop, progs, wd, 12 if quick else 400, jobs=6)
     rep.coverage = {
+        **vmcov,
         "programs": len(progs) + len(redo), "disagreements_checked": len(ops) + rel_checked,
         "evaluations": len(ops), "distinct_nontrivial": nontrivial,
         "rule": "one evaluation = one operation (operator x operand bit patterns x operand form) observed on the real VM and compared "
